@@ -333,7 +333,7 @@ func runC19Relay(run *Run, seed int64, rng *rand.Rand) (out []*c01Result) {
 		}
 	}
 	rig, err := NewRig(RigOpts{Seed: seed, Spec: NodeSpec{Name: "V", IP: "10.9.9.9", Mutate: func(cf *memberlist.Config) {
-		cf.ProbeInterval = time.Hour
+		cf.ProbeInterval = noProbe
 		cf.ProbeTimeout = 300 * time.Millisecond
 		cf.PushPullInterval = 0
 		cf.GossipInterval = 0
